@@ -42,10 +42,10 @@ def advance (rp : RP) (s : Nat) : RP :=
 
 /-- `ReplayProtection::verif_dump` -/
 def dump (rp : RP) : String :=
-  let entries := (List.range 256).filterMap fun i =>
-    let v := rp.received.toList.getD i EMPTY
-    if v = EMPTY then none else some (toString i ++ ":" ++ toString v)
-  "mr=" ++ toString rp.mostRecent ++ ",w=[" ++ ";".intercalate entries ++ "]"
+  let rec go (i : Nat) : List Nat → List String
+    | [] => []
+    | v :: r => if v = EMPTY then go (i + 1) r else (toString i ++ ":" ++ toString v) :: go (i + 1) r
+  "mr=" ++ toString rp.mostRecent ++ ",w=[" ++ ";".intercalate (go 0 rp.received.toList) ++ "]"
 
 end RP
 end RenetVerif.Netcode
